@@ -523,6 +523,53 @@ func runC10(c *Ctx) {
 		keepK := edgesWhere(fn, tb, keyLow, nil, false)
 		dropV := edgesWhere(fn, tb, valLow, nil, true)
 		dropK := edgesWhere(fn, tb, keyLow, nil, true)
+		if len(keepV) == 0 || len(keepK) == 0 {
+			// the conjunction may be materialised first (`skip := val < lo && key < mk; if !skip {…}`): go/ssa
+			// gives φ(false, second conjunct) and a branch on the φ. Its true edge means both conjuncts hold,
+			// its false edge that one of them fails - exactly the drop / keep sides this rule asks for.
+			for _, b := range fn.Blocks {
+				iff := lastIf(b)
+				if iff == nil {
+					continue
+				}
+				cond := iff.Cond
+				neg := false
+				for {
+					if u, ok := cond.(*ssa.UnOp); ok && u.Op == token.NOT {
+						cond, neg = u.X, !neg
+						continue
+					}
+					break
+				}
+				ph, ok := cond.(*ssa.Phi)
+				if !ok || len(ph.Edges) != 2 {
+					continue
+				}
+				var first, second string
+				for i, e := range ph.Edges {
+					if isConst(e, "false") {
+						if pi := lastIf(ph.Block().Preds[i]); pi != nil {
+							first = tb.T(pi.Cond).String()
+						}
+					} else {
+						second = tb.T(e).String()
+					}
+				}
+				isV := func(t string) bool { return Match(valLow, mustTerm(tb, fn, t), nil) }
+				isK := func(t string) bool { return Match(keyLow, mustTerm(tb, fn, t), nil) }
+				if first == "" || second == "" || !((isV(first) && isK(second)) || (isK(first) && isV(second))) {
+					continue
+				}
+				tEdge, fEdge := Edge{b, 0}, Edge{b, 1}
+				if neg {
+					tEdge, fEdge = fEdge, tEdge
+				}
+				keepV = map[Edge]bool{fEdge: true}
+				keepK = map[Edge]bool{fEdge: true}
+				dropV = map[Edge]bool{tEdge: true}
+				dropK = map[Edge]bool{tEdge: true}
+			}
+		}
 		if cp == nil || leftInc == nil || len(keepV) == 0 || len(keepK) == 0 {
 			L.Fail("R-C10-CMP", "node.compact", "compaction does not test `val < lo && key < maxKey` (strict, both) before dropping an entry", fn.Pos())
 			return
@@ -671,4 +718,19 @@ func runC10(c *Ctx) {
 		ok := len(cs) == 1 && Match("slice(p[0],_,mul(c[2],call[z.node.numKeys](p[0])),_)", tb.T(cs[0].Common().Args[0]), nil)
 		L.Check(ok, "R-C10-SEARCHARG", "node.search", "simd.Search(n[:2*numKeys], k)", "node.search does not pass exactly n[:2*numKeys] to simd.Search", fn.Pos())
 	})
+}
+
+
+// mustTerm finds the term of the value in fn whose term string is t (used to re-match a pattern
+// against a condition that was first seen as a string).
+func mustTerm(tb *TB, fn *ssa.Function, t string) *Term {
+	var out *Term
+	eachInstr(fn, func(in ssa.Instruction) {
+		if v, ok := in.(ssa.Value); ok && out == nil {
+			if tt := tb.T(v); tt.String() == t {
+				out = tt
+			}
+		}
+	})
+	return out
 }
